@@ -25,7 +25,7 @@ func registerC04() {
 			"every 29th position, thorough = all 2^15 patterns at every position; Decode (every fifth time with the unknown-item options and a logger) and CheckIntegrity must both return an error. Family headers: header sizes x protocol " +
 			"versions x profile versions x stored CRC {correct, 0, each single-bit error, PRNG} and every single-byte corruption of bytes 1-3, 8-13 of a correct 14-byte header, " +
 			"each inside an otherwise valid file with recomputed file CRC: CheckIntegrity(headerOnly), DecodeHeader, Decode and Header.CheckIntegrity - and DecodeHeaderAndFileID, DecodeChained and CheckIntegrity over the whole file, which read the header on their way - must all agree with the " +
-			"reference verdict. Family large-bursts: model streams of 5-120 KB and the device files up to 400 KB, each corrupted at 400 (quick) / 3000 (thorough) PRNG bit positions (concentrated around the decoder's 4096-byte buffer boundaries, record boundaries and the trailing CRC) with PRNG burst patterns of span <= 16. Family accepted: every output of a successful Encode of an API-built File (into a plain buffer, a file on disk, a bytes.Buffer already holding data, a bufio.Writer, a seekable in-memory writer; 12- and 14-byte headers) must pass CheckIntegrity; streams Decode accepts (model, device, Encode output, model streams padded to data sizes at and around multiples of the 4096-byte read buffer, and streams whose header lies about the data size - 0, 1, true +-1 ... - with and without trailer) must pass CheckIntegrity. A case is one corrupted file; distinct by construction",
+			"reference verdict. Family large-bursts: model streams of 5-120 KB and the device files up to 400 KB, each corrupted at 400 (quick) / 3000 (thorough) PRNG bit positions (concentrated around the decoder's 4096-byte buffer boundaries, record boundaries and the trailing CRC) with PRNG burst patterns of span <= 16. Family accepted: every output of a successful Encode of an API-built File (into a plain buffer, a file on disk, a bytes.Buffer already holding data, a bufio.Writer, a seekable in-memory writer; 12- and 14-byte headers; one file of 67 MB - thorough: also 135 and 270 MB) must pass CheckIntegrity; streams Decode accepts (model, device, Encode output, model streams padded to data sizes at and around multiples of the 4096-byte read buffer, and streams whose header lies about the data size - 0, 1, true +-1 ... - with and without trailer) must pass CheckIntegrity. A case is one corrupted file; distinct by construction",
 		Assume:        []string{"'contiguous bits' are contiguous in the order the reflected CRC consumes them (LSB first); any error counts as detection"},
 		MinNontrivial: 20000,
 		Families: []lib.Family{
@@ -360,6 +360,57 @@ func c04HeaderBytes(c *lib.Ctx, idx uint64) {
 func c04Accepted(c *lib.Ctx, idx uint64) {
 	rng := lib.NewRand("C04.accepted", idx)
 	var b []byte
+	if idx == 5 || c.Tier == "thorough" && (idx == 21 || idx == 37) {
+		// A file that Encode produced passes CheckIntegrity, however large: 290 000 (580 000,
+		// 1 160 000) session messages, 67 (135, 270) MB on the wire.
+		n := map[uint64]int{5: 290000, 21: 580000, 37: 1160000}[idx]
+		f, err := fit.NewFile(fit.FileTypeActivity, fit.NewHeader(fit.V20, idx != 21))
+		if err != nil {
+			return
+		}
+		f.FileId = *fit.NewFileIdMsg()
+		f.FileId.Type = fit.FileTypeActivity
+		a, _ := f.Activity()
+		m := fit.VerifNewMesg(18)
+		lib.FillMesg(rng, 18, m, &lib.FileGenOpts{Subset: 4})
+		s, ok := m.Interface().(*fit.SessionMsg)
+		if !ok || a == nil {
+			return
+		}
+		a.Sessions = make([]*fit.SessionMsg, n)
+		for i := range a.Sessions {
+			a.Sessions[i] = s
+			if i&0xFFF == 0 {
+				c.Tick()
+			}
+		}
+		var buf bytes.Buffer
+		var eerr error
+		o := lib.Guard(func() { eerr = fit.Encode(&buf, f, archOrder(int(idx/16)%2)) })
+		c.Eval()
+		if o.Panicked || eerr != nil {
+			return // encodability is C05's subject
+		}
+		out := buf.Bytes()
+		c.SetInflight(out[:4096])
+		var ierr error
+		io := lib.Guard(func() { ierr = fit.CheckIntegrity(bytes.NewReader(out), false) })
+		c.Eval()
+		if io.Panicked || ierr != nil {
+			c.Violation(out[:4096], "Encode wrote a file of %d bytes (%d session messages) and returned nil, but CheckIntegrity rejects it: %v %s", len(out), n, ierr, io.Panic)
+			return
+		}
+		var herr error
+		lib.Guard(func() { _, herr = fit.DecodeHeader(bytes.NewReader(out)) })
+		if herr != nil {
+			c.Violation(out[:4096], "DecodeHeader rejects the header of a file of %d bytes that Encode wrote: %v", len(out), herr)
+			return
+		}
+		c.Count("encoded_files_larger_than_64_MiB_passing_integrity", 1)
+		c.Count("largest_encoded_file_bytes", int64(len(out)))
+		c.Nontrivial(out[:4096], []byte{byte(idx)})
+		return
+	}
 	if idx%16 == 13 {
 		// Streams whose header lies about the data size (0 as an interrupted recording leaves
 		// it, 1, the true size +-1, +2, twice the size), with the trailing CRC absent, left as
